@@ -30,6 +30,7 @@ def generate(ctx):
         # "for all batch sizes": also batch sizes reached through the batchsz setter (built at another size, then resized)
         d["resize_from"] = rng.choice([None, None, 1, d["B"] + 2, max(1, d["B"] - 1)]) if kind in ("neuron", "synapse", "connection") else None
         d["warm"] = rng.choice([0, 0, 3])
+        d["clear_at"] = rng.choice([None, None, 3, 6])      # clear() on the batched component and on every twin, mid-run
         if kind == "neuron":
             d.update(cls=fac.NEURONS[(i // len(KINDS)) % 8], shape=list(rng.choice([(3,), (2, 2)])), lock=rng.random() < 0.8)
         elif kind == "synapse":
@@ -123,6 +124,10 @@ def _neuron(ctx, desc):
         kw["adapt"] = False
     for t, x in enumerate(xs):
         x = x + torch.randn(x.shape, generator=g, dtype=torch.float64) * 5 * (torch.arange(B).view(-1, *[1] * len(shape)) > 1)
+        if t and desc.get("clear_at") == t:
+            for n in [nb] + singles:
+                n.clear()
+            ctx.count("mid_run_clears")
         sb = nb(x, **kw)
         ss = [n(x[b:b + 1], **kw) for b, n in enumerate(singles)]
         ctx.case(f"neuron/{desc['cls']}/B{B}/lock{int(desc['lock'])}/dt{dt}/{'resized' if B0 else 'built'}")
@@ -153,6 +158,10 @@ def _synapse(ctx, desc):
     for t, x in enumerate(xs):
         inj = torch.randn(x.shape, generator=g, dtype=torch.float64)
         args = (x, inj) if desc["syn"] == "deltaplus" else (x,)
+        if t and desc.get("clear_at") == t:
+            for m in [sb] + singles:
+                m.clear()
+            ctx.count("mid_run_clears")
         ob = sb(*args)
         os_ = [s(*(a[b:b + 1] for a in args)) for b, s in enumerate(singles)]
         ctx.case(f"synapse/{desc['syn']}/B{B}/delay{desc['delay']}/{'ip' if desc['inplace'] else 'oop'}/{'resized' if B0 else 'built'}")
@@ -194,6 +203,10 @@ def _connection(ctx, desc):
     for t, x in enumerate(xs):
         inj = torch.randn(x.shape, generator=g, dtype=torch.float64)
         args = (x, inj) if desc["syn"] == "deltaplus" else (x,)
+        if t and desc.get("clear_at") == t:
+            for m in [cb] + singles:
+                m.clear()
+            ctx.count("mid_run_clears")
         ob = cb(*args)
         os_ = [s(*(a[b:b + 1] for a in args)) for b, s in enumerate(singles)]
         ctx.case(f"connection/{desc['conn']}/{desc['syn']}/B{B}/delay{desc['delay']}/bias{int(desc['bias'])}/{'resized' if B0 else 'built'}")
